@@ -28,38 +28,38 @@ func registerBW() {
 	}
 	real := append([]string{"sourcebundle.Builder / Bundle / OpenDir / WriteArchive / ExtractArchive", "golang.org/x/mod dirhash", "go-versions (membership and ordering trusted)"}, realCommon...)
 	plans["C08"] = &Plan{ID: "C08", Level: "exploration",
-		Legs: []Leg{{World: "bw", Profile: "clean", Quick: 3500, Weight: 3}, {World: "bw", Profile: "small", Quick: 1500, Weight: 1, Index: true}, {World: "bw", Profile: "faultsweep", Quick: 8, Weight: 1}},
-		Rule: "each evaluation = one generated world (<=6 remote packages with module locations, deps.F1/F2 declarations read back by the finder stubs through the fs.FS, <=3 registry packages x <=5 versions, local/remote/registry edges incl. cycles, diamonds, self-references, sub-paths on both sides of a registry hop) built by the real Builder from 1-6 Add calls issued by 1-3 client tasks; after an error-free build every pair of the reference closure must be found, inside the root, existing iff fetched, with exactly the fetched (rule-filtered) content, registry lookups equal to registry answer joined with caller sub-path, metadata unchanged. distinct = scenario hash; non-trivial = >=2 packages, a registry hop, a fault or >=2 tasks.",
+		Legs:   []Leg{{World: "bw", Profile: "clean", Quick: 3500, Weight: 3}, {World: "bw", Profile: "small", Quick: 1500, Weight: 1, Index: true}, {World: "bw", Profile: "faultsweep", Quick: 8, Weight: 1}},
+		Rule:   "each evaluation = one generated world (<=6 remote packages with module locations, deps.F1/F2 declarations read back by the finder stubs through the fs.FS, <=3 registry packages x <=5 versions, local/remote/registry edges incl. cycles, diamonds, self-references, sub-paths on both sides of a registry hop) built by the real Builder from 1-6 Add calls issued by 1-3 client tasks; after an error-free build every pair of the reference closure must be found, inside the root, existing iff fetched, with exactly the fetched (rule-filtered) content, registry lookups equal to registry answer joined with caller sub-path, metadata unchanged. distinct = scenario hash; non-trivial = >=2 packages, a registry hop, a fault or >=2 tasks.",
 		Assume: []string{"world addresses are generated in canonical spelling (asserted at run time, else the run is skipped)", "fetcher metadata always has a non-empty commit id when present"},
 		Real:   real, Sim: bwSim}
 	plans["C14"] = &Plan{ID: "C14", Level: "exploration",
-		Legs: []Leg{{World: "bw", Profile: "small", Quick: 2500, Weight: 2, Index: true}, {World: "bw", Profile: "clean", Quick: 2500, Weight: 3}, {World: "bw", Profile: "faultsweep", Quick: 8, Weight: 1}, {World: "bw", Profile: "errors", Quick: 800, Weight: 1}},
-		Rule: "each evaluation = one fault-free build; over the peers' call log: one fetch per distinct package of the reference closure (none for others), one version-list request per registry package, one source-address request per selected version, one analysis per (source, finder) pair of the closure; over the tracer's history: every start followed by exactly one success/failure, 'already' only after a success; total peer calls + trace events within 10 x (Add calls + declared dependencies) + 10, and no scheduler deadlock. 'small' seeds index the family <=3 packages x <=2 locations x edge subsets.",
+		Legs:   []Leg{{World: "bw", Profile: "small", Quick: 2500, Weight: 2, Index: true}, {World: "bw", Profile: "clean", Quick: 2500, Weight: 3}, {World: "bw", Profile: "faultsweep", Quick: 8, Weight: 1}, {World: "bw", Profile: "errors", Quick: 800, Weight: 1}},
+		Rule:   "each evaluation = one fault-free build; over the peers' call log: one fetch per distinct package of the reference closure (none for others), one version-list request per registry package, one source-address request per selected version, one analysis per (source, finder) pair of the closure; over the tracer's history: every start followed by exactly one success/failure, 'already' only after a success; total peer calls + trace events within 10 x (Add calls + declared dependencies) + 10, and no scheduler deadlock. 'small' seeds index the family <=3 packages x <=2 locations x edge subsets.",
 		Assume: []string{"finder calls are keyed by (package directory, sub-path, finder); coalesced twin packages share a key and the expected count is the number of model pairs mapping to it"},
 		Real:   real, Sim: bwSim}
 	plans["C17"] = &Plan{ID: "C17", Level: "exploration",
-		Legs: []Leg{{World: "bw", Profile: "versions", Quick: 3000, Weight: 3}, {World: "bw", Profile: "clean", Quick: 1500, Weight: 1}, {World: "bw", Profile: "errors", Quick: 1000, Weight: 1}, {World: "bw", Profile: "faultsweep", Quick: 8, Weight: 1}},
-		Rule: "each evaluation = one build with registry requests (several against the same package, list order permuted, ruby-style constraints incl. exact, pessimistic, ranges, disjoint, pre-release); the versions the bundle holds and the versions the registry client was asked for must equal the brute-force maximum of offered-and-allowed per request; final sources use exactly their version; an empty intersection must produce an error diagnostic; recorded deprecation equals the registry's for that version.",
+		Legs:   []Leg{{World: "bw", Profile: "versions", Quick: 3000, Weight: 3}, {World: "bw", Profile: "clean", Quick: 1500, Weight: 1}, {World: "bw", Profile: "errors", Quick: 1000, Weight: 1}, {World: "bw", Profile: "faultsweep", Quick: 8, Weight: 1}},
+		Rule:   "each evaluation = one build with registry requests (several against the same package, list order permuted, ruby-style constraints incl. exact, pessimistic, ranges, disjoint, pre-release); the versions the bundle holds and the versions the registry client was asked for must equal the brute-force maximum of offered-and-allowed per request; final sources use exactly their version; an empty intersection must produce an error diagnostic; recorded deprecation equals the registry's for that version.",
 		Assume: []string{"versions.Set.Has and version comparison are go-versions' and trusted; no 0.0.0, no versions differing only in build metadata, no duplicates"},
 		Real:   real, Sim: bwSim}
 	plans["C13"] = &Plan{ID: "C13", Level: "exploration",
-		Legs: []Leg{{World: "bw", Profile: "order", Quick: 3000, Weight: 1}},
-		Rule: "each evaluation = one world whose Add set is executed 2-5 times: permuted Add order, permuted dependency/ version-list report order, distributed over 1-3 client tasks whose interleaving at every Lock/Unlock and peer call is decided by the schedule tape, and identical re-runs (map order); manifest bytes, ChecksumV1, target listing and relative lookup table must be identical, and fetched packages share a directory iff their filtered file path->content maps are equal. distinct interleavings = hashes of the (task, yield kind) sequence.",
+		Legs:   []Leg{{World: "bw", Profile: "order", Quick: 3000, Weight: 1}},
+		Rule:   "each evaluation = one world whose Add set is executed 2-5 times: permuted Add order, permuted dependency/ version-list report order, distributed over 1-3 client tasks whose interleaving at every Lock/Unlock and peer call is decided by the schedule tape, and identical re-runs (map order); manifest bytes, ChecksumV1, target listing and relative lookup table must be identical, and fetched packages share a directory iff their filtered file path->content maps are equal. distinct interleavings = hashes of the (task, yield kind) sequence.",
 		Assume: []string{"the cooperative scheduler cuts only at yield points; data races inside a critical section are outside its reach (the -race leg of DESIGN.md is not registered as a check)", "near-twins differ in a regular file's path or content only"},
 		Real:   real, Sim: bwSim}
 	plans["C09"] = &Plan{ID: "C09", Level: "exploration",
-		Legs: []Leg{{World: "bw", Profile: "post", Quick: 3000, Weight: 1}},
-		Rule: "each evaluation = one successful build followed by the generated post-operations 'reopen' (a restart: OpenDir on the directory, also by a relative spelling from another working directory) and 'ship' (WriteArchive and ExtractArchive as two scheduled tasks over a bounded SimPipe); the accessor fingerprint (packages, metadata, registry packages, versions, source addresses, deprecations, checksum, relative lookups) and the directory trees must equal those of the bundle returned by Close.",
+		Legs:   []Leg{{World: "bw", Profile: "post", Quick: 3000, Weight: 1}},
+		Rule:   "each evaluation = one successful build followed by the generated post-operations 'reopen' (a restart: OpenDir on the directory, also by a relative spelling from another working directory) and 'ship' (WriteArchive and ExtractArchive as two scheduled tasks over a bounded SimPipe); the accessor fingerprint (packages, metadata, registry packages, versions, source addresses, deprecations, checksum, relative lookups) and the directory trees must equal those of the bundle returned by Close.",
 		Assume: []string{"same platform on both sides"},
 		Real:   real, Sim: bwSim}
 	plans["C10"] = &Plan{ID: "C10", Level: "exploration",
-		Legs: []Leg{{World: "bw", Profile: "trees", Quick: 3000, Weight: 3}, {World: "bw", Profile: "clean", Quick: 1000, Weight: 1}, {World: "bw", Profile: "faultsweep", Quick: 6, Weight: 1}},
-		Rule: "each evaluation = one build whose fetcher delivers hostile trees (links relative/absolute, into a sibling, to the manifest, out of the bundle, to the temporary directory by name, chains, through rule-excluded directories, dangling, fifos); on success every package directory holds only files, directories and links that physically resolve to a file/directory inside the same package directory, no .tmp-* entry remains; whatever the outcome, a total snapshot shows nothing outside the target changed (TMPDIR and cwd are inside the snapshot).",
+		Legs:   []Leg{{World: "bw", Profile: "trees", Quick: 3000, Weight: 3}, {World: "bw", Profile: "clean", Quick: 1000, Weight: 1}, {World: "bw", Profile: "faultsweep", Quick: 6, Weight: 1}},
+		Rule:   "each evaluation = one build whose fetcher delivers hostile trees (links relative/absolute, into a sibling, to the manifest, out of the bundle, to the temporary directory by name, chains, through rule-excluded directories, dangling, fifos); on success every package directory holds only files, directories and links that physically resolve to a file/directory inside the same package directory, no .tmp-* entry remains; whatever the outcome, a total snapshot shows nothing outside the target changed (TMPDIR and cwd are inside the snapshot).",
 		Assume: []string{"special files needing privileges are not generated"},
 		Real:   real, Sim: bwSim}
 	plans["C18"] = &Plan{ID: "C18", Level: "exploration",
-		Legs: []Leg{{World: "bw", Profile: "post", Quick: 2500, Weight: 2}, {World: "bw", Profile: "hostile", Quick: 1500, Weight: 1}},
-		Rule: "each evaluation = stored-state corruption of a finished bundle's manifest (truncation, byte flips, field-wise hostile rewrites of directory names, addresses, versions, format number, duplicates) or a synthetic hostile manifest, followed by OpenDir: if it opens, every lookup for every address in it lies inside the root and directory names with a separator, '.' or '..' were refused; on every successfully built bundle every path under every package directory translates to an address and back to itself and outside paths are reported as not belonging.",
+		Legs:   []Leg{{World: "bw", Profile: "post", Quick: 2500, Weight: 2}, {World: "bw", Profile: "hostile", Quick: 1500, Weight: 1}},
+		Rule:   "each evaluation = stored-state corruption of a finished bundle's manifest (truncation, byte flips, field-wise hostile rewrites of directory names, addresses, versions, format number, duplicates) or a synthetic hostile manifest, followed by OpenDir: if it opens, every lookup for every address in it lies inside the root and directory names with a separator, '.' or '..' were refused; on every successfully built bundle every path under every package directory translates to an address and back to itself and outside paths are reported as not belonging.",
 		Assume: []string{"which alias is returned for coalesced packages is not checked"},
 		Real:   real, Sim: bwSim}
 }
@@ -105,7 +105,10 @@ func bwFaultSweep(seed uint64) []scen {
 		for n := 1; n <= 8; n++ {
 			for _, k := range kinds[site] {
 				site, n, k := site, n, k
-				add(func(c *bw.Scenario) { c.Faults = []bw.PeerFault{{Site: site, N: n, Kind: k}}; c.Post = []string{"crash-probe"} })
+				add(func(c *bw.Scenario) {
+					c.Faults = []bw.PeerFault{{Site: site, N: n, Kind: k}}
+					c.Post = []string{"crash-probe"}
+				})
 			}
 		}
 	}
